@@ -8,24 +8,12 @@
    FmtDiffs(y) = [].  [aligned] is a boolean function of ds. *)
 From Coq Require Import String List NArith ZArith Bool Lia ZifyN ZifyNat ZifyBool.
 From J5V.lib Require Import Text Outcome.
-From J5V.model Require Import BclLexer BclParser BclFmt.
+From J5V.model Require Import BclLexer BclParser BclFmt BclFmtAligned.
 From J5V.proofs Require Import BclPosProofs BclLexerProofs BclLexerCoverProofs BclParserProofs BclWalkCoverProofs BclTextProofs BclFmtProofs
   BclFragWfProofs BclFmtFileProofs BclDescGapProofs BclFmtRoundProofs BclLineNoProofs BclWalkPosProofs BclWalkBackProofs BclFmtIdemProofs BclFmtBytesProofs.
 Import ListNotations.
 Local Open Scope Z_scope.
 Arguments Nat.sub : simpl never.
-
-(* number of lines of a diff's (byte) text *)
-Definition fd_nlines (m : fdiff) : Z := Z.of_nat (length (text_lines (utf8_encode (fd_text m)))).
-
-Fixpoint aligned (ms : list fdiff) (first : bool) (le : Z) : bool :=
-  match ms with
-  | [] => true
-  | m :: r =>
-    (if first then fd_from m =? 0 else (fd_from m =? le) || (fd_from m =? le + 1))
-    && (0 <? fd_nlines m) && (fd_to m =? fd_from m + fd_nlines m)
-    && aligned r false (fd_to m)
-  end.
 
 (* ---- nothing is merged ------------------------------------------------------------------------- *)
 Lemma merge_loop_aligned : forall ms c, aligned ms false (fd_to c) = true ->
@@ -151,9 +139,6 @@ Qed.
 
 (* ---- the start lines of the second run's diffs ARE aligned (BclWalkPosProofs) -------------------- *)
 (* what remains of [aligned] once the start lines are known: every diff spans the lines of its text *)
-Definition extent_ok (ms : list fdiff) : bool :=
-  forallb (fun m => fd_to m =? fd_from m + fd_nlines m) ms.
-
 Fixpoint rel_ft (V : Z) (ps : list (Z * Z)) (bs : list bool) : Prop :=
   match ps, bs with
   | [], [] => True
